@@ -7,8 +7,9 @@
    _partial: the array-side misuse classes (size_mismatch, inner_dimension_mismatch, empty_array, invalid_dimension,
    invalid_operation, index_out_of_bounds on over-filling) and stack_already_active are not in this model; for them
    the check commits each misuse under AddressSanitizer/UBSan, verifies the exception type and the follow-up work. *)
-From Coq Require Import List Arith Ring_theory.
-From Adept Require Import Scalar Tape TapeAdjoint Protocol ProtocolProofs.
+From Coq Require Import List Arith Ring_theory ZArith.
+From Adept Require Import Scalar Tape TapeAdjoint Protocol ProtocolProofs StackDefs StackProofs ProtocolStack.
+From AdeptGen Require Import Gen_Stack.
 Import ListNotations.
 
 Section AnyRing.
@@ -38,7 +39,33 @@ Theorem C11_recoverable_partial : forall (st : pstate (T:=T)) k,
 Proof. exact (misuse_recoverable). Qed.
 Theorem C11_invariants_survive_partial : forall ops, PInv (prun O ops (pinit O)) /\ NInv (prun O ops (pinit O)).
 Proof. intros ops. split; [apply prun_inv; constructor|apply prun_ninv; intros H; discriminate]. Qed.
+
+(* tie G: the gradient-list bookkeeping of adept::Stack TRANSLATED on every run from Stack.cpp / Stack.h (initialize_gradients,
+   extend_gradients, set_gradients, get_gradients, compute_adjoint / compute_tangent_linear, clear_gradients, new_recording).
+   In every state the model can reach, executing the translated code on the model's counters gives the model's next
+   counters and the model's exception kind, and never touches the gradient buffer beyond its TRUE length (b_oob), for
+   set_gradient / get_gradient of any object index, both sweeps, clear_gradients and new_recording *)
+Theorem C11_generated_stack_bookkeeping : forall ops ig i x,
+  let st := prun O ops (pinit O) in
+  (let r := do_set (Z.of_nat i) (Z.of_nat i + 1) (proj ig st) in
+   same_counters (pstep O st (OSeed i x)) r /\ b_oob r = false /\
+   match b_err r with None => errs (pstep O st (OSeed i x)) = errs st | Some e => errs (pstep O st (OSeed i x)) = kind_of e :: errs st end) /\
+  (let r := do_get (Z.of_nat i) (Z.of_nat i + 1) (proj ig st) in b_oob r = false /\ option_map kind_of (b_err r) = obs_gradient_error st i) /\
+  (let r := do_adjoint (proj ig st) in
+   b_oob r = false /\ b_oob (do_tangent (proj ig st)) = false /\
+   match b_err r with
+   | None => init st = true /\ same_counters (pstep O st OReverse) r /\ same_counters (pstep O st OForward) r /\
+             errs (pstep O st OReverse) = errs st /\ errs (pstep O st OForward) = errs st
+   | Some e => init st = false /\ errs (pstep O st OReverse) = kind_of e :: errs st /\ errs (pstep O st OForward) = kind_of e :: errs st
+   end) /\
+  same_counters (pstep O st OClearGradients) (do_clear_gradients (proj ig st)).
+Proof.
+  intros ops ig i x st. pose proof (reachable_cap O ops) as Hc. fold st in Hc.
+  split; [exact (seed_matches O ig st i x Hc)|]. split; [exact (read_matches ig st i Hc)|].
+  split; [exact (sweeps_match O ig st Hc)|exact (clear_gradients_matches O ig st Hc)].
+Qed.
 End AnyRing.
+Print Assumptions C11_generated_stack_bookkeeping.
 Print Assumptions C11_no_out_of_bounds_partial.
 Print Assumptions C11_kinds_partial.
 Print Assumptions C11_recoverable_partial.
